@@ -28,11 +28,17 @@ class Mutating(_Rec):
     the dictionaries) - as a component that owns its arguments may."""
 
     def __init__(self, *args, **kwargs):
+        def own(a):     # its own data (not a shared object of this module)
+            return isinstance(a, (list, dict)) and a is not globals().get(
+                'CYC')
+
         def keep(a):
-            return copy.deepcopy(a) if isinstance(a, (list, dict)) else a
+            return copy.deepcopy(a) if own(a) else a
         self.args = tuple(keep(a) for a in args)
         self.kwargs = {k: keep(a) for k, a in kwargs.items()}
         for a in list(args) + list(kwargs.values()):
+            if not own(a):
+                continue
             if isinstance(a, list):
                 a.append('mutated by the component')
             elif isinstance(a, dict):
@@ -50,6 +56,17 @@ class Listener(_Rec):
 
 @desper.event_handler('on_world_load')
 class LoadOnly(_Rec):
+    def on_world_load(self, handle, world):
+        LOG.append(('on_world_load', self, handle, world))
+
+
+class LateDeco(_Rec):
+    """Becomes an event handler only when the engine decorates it, possibly
+    after instances have been through a World (undone before every run)."""
+
+    def on_add(self, entity, world):
+        LOG.append(('on_add', self, entity, world))
+
     def on_world_load(self, handle, world):
         LOG.append(('on_world_load', self, handle, world))
 
@@ -105,6 +122,8 @@ class _NoCopy:
 
 
 NOCOPY = _NoCopy()
+CYC = ['a list that contains itself']
+CYC.append(CYC)
 TEXT = 'a fixture string'
 
 
